@@ -3,6 +3,7 @@ from __future__ import annotations
 
 import contextlib
 import enum
+import hashlib
 import io
 import itertools
 import os
@@ -15,6 +16,7 @@ from typing import Any
 from harness.common import REPO, Ck, coq_list, parse_coq_nested
 from harness import c10_util
 from translate import c10_bspgraph
+from translate import c11_formats, c11_glue      # C11's translators (read-only here): the generated view codecs
 
 MANIFEST = dict(
     technique='Rocq proof (lazy-lump state machine with looks that raise: get/save over a dependency graph and a generated '
@@ -187,6 +189,7 @@ class Subject:
         self.name, self.path, self.desc = name, path, desc
         self.ref = raw_snapshot(open_bsp(path))
         self._canon: dict[str, Any] = {}
+        self.out_canon: dict[tuple[str, bytes], Any] = {}
         self.malformed = bool(desc.get('opts', {}).get('bad'))
 
     def unparsable(self, view: str) -> bool:
@@ -303,8 +306,14 @@ def compare(subj: Subject, path_out, own: dict[str, str]) -> list[tuple[str, str
                 else:
                     probs.append((f'raw-changed:{nm}', f'game lump without a view: {len(data)} -> {len(ndata)} bytes'))
     diffs = {}
+    # the parsed content of a view of the saved file is a function of the file's content: histories that produce the same
+    # container (all lumps, versions, flags, game lumps) share the result
+    memo = subj.out_canon
+    digest = hashlib.sha1(repr(sorted(new.items())).encode('latin1', 'backslashreplace')).digest() if changed else b''
     for v in affected_views(changed, own):
-        a, b = subj.canon(v), view_canon(path_out, v)
+        if (v, digest) not in memo:
+            memo[v, digest] = view_canon(path_out, v)
+        a, b = subj.canon(v), memo[v, digest]
         if a != b:
             diffs[v] = _first_diff(a, b)
     for v in primary(list(diffs)):
@@ -843,6 +852,134 @@ Definition case (t : list (list N * list N)) (c : container) (impl aligned : lis
             ck.explain('correspondence:container')      # the same disagreement seen by the independent Python encoder
 
 
+# ================================================================================================ per-view codec premises
+# The theorems assume, per view, that the writer inverts the reader on the values the file holds (c10_property:
+# codec_ok_at).  That is property C11; its translators regenerate the codec of every view from bsp.py as Coq objects
+# (Gen/BspFormats_gen.v, Gen/BspGlue_gen.v) and its check states boolean obligations over them.  C10 re-derives the
+# same objects on every run and discharges the obligations that concern the round trip of values READ FROM A FILE
+# (not the half of C11 about rejecting values that do not fit), grouped by the view whose premise they support.
+FACE_VIEWS = ('faces', 'hdr_faces', 'orig_faces')
+WRITER_VIEWS = {'_write_faces_common': FACE_VIEWS}
+STREAM_VIEWS = {
+    'planes': ('planes',), 'vertexes': ('vertexes',), 'edges': ('surfedges',), 'surfedges': ('surfedges',),
+    'primverts': ('primitives',), 'primindices': ('primitives',), 'primitives': ('primitives',), 'faceids': ('faces', 'hdr_faces'),
+    'faces': FACE_VIEWS, 'faces_vitamin': FACE_VIEWS, 'brushsides': ('brushes',), 'brushsides_vitamin': ('brushes',),
+    'brushes': ('brushes',), 'leafwaterdata': ('water_leaf_info',), 'leafbrushes': ('visleafs',), 'leaffaces': ('visleafs',),
+    'leafmindisttowater': ('visleafs',), 'leafs': ('visleafs',), 'leafs_v19': ('visleafs',), 'leafs_vitamin': ('visleafs',),
+    'nodes': ('nodes',), 'vis_cluster_count': ('visibility',), 'vis_offsets': ('visibility',),
+    'texdata_string_table': ('textures',), 'texdata': ('texinfo',), 'texdata_vitamin': ('texinfo',), 'texinfo': ('texinfo',),
+    'bmodels': ('bmodels',), 'physcollide_header': ('bmodels',), 'physcollide_solid_size': ('bmodels',), 'cubemaps': ('cubemaps',),
+    'overlay_fades': ('overlays',), 'overlay_system_levels': ('overlays',), 'prop_dict_count': ('props',),
+    'prop_dict_name': ('props',), 'sprp_leaf_count': ('props',), 'sprp_leaf_array': ('props',), 'sprp_prop_count': ('props',),
+    'dprp_sprite_count': ('detail_props',), 'dprp_sprite': ('detail_props',), 'dprp_detail_count': ('detail_props',),
+    'dprp_detail': ('detail_props',), 'detail_model': ('detail_props',), 'detail_sprite': ('detail_props',),
+    'detail_shape': ('detail_props',),
+}
+PREFIX_VIEWS = [('vis_', ('visibility',)), ('texdata_', ('textures',)), ('ent_', ('ents',)), ('overlay_', ('overlays',)),
+                ('face_', FACE_VIEWS), ('leaf_', ('visleafs',)), ('brushside_', ('brushes',)), ('detail_', ('detail_props',)),
+                ('prop_', ('props',)), ('helper_property_split_agrees:StaticProp', ('props',)),
+                ('bool_code_agrees:DetailProp', ('detail_props',)), ('bool_code_agrees:StaticProp', ('props',))]
+# the half of C11 that is about REJECTING values a user assigned (guards, range checks): says nothing about values read from a file
+C11_REJECTION_ONLY = ('ns_site_guarded:', 'vis_writer_checks_row_length', 'no_value_is_masked_before_pack', 'find_or_extend_checks_bounds')
+
+
+def views_of_c11_obligation(name: str) -> tuple[str, ...]:
+    """The views whose codec premise an obligation of C11 supports ('*' = the struct layer under every view)."""
+    head, _, arg = name.partition(':')
+    if head in ('record_fields_agree', 'lump_formats_agree') and arg in STREAM_VIEWS:
+        return STREAM_VIEWS[arg]
+    if head == 'record_variants_cover_every_layout' and arg in STREAM_VIEWS:
+        return STREAM_VIEWS[arg]
+    if head == 'dedup_key_determines_record':        # '<writer function>:<table>'
+        fn = arg.split(':')[0]
+        if fn in WRITER_VIEWS:
+            return WRITER_VIEWS[fn]
+        if fn.startswith('_lmp_write_') and fn[len('_lmp_write_'):] in VIEWS:
+            return (fn[len('_lmp_write_'):],)
+    for pre, vs in PREFIX_VIEWS:
+        if name.startswith(pre):
+            return vs
+    return ('*',)
+
+
+def codec_obligations(fside: dict, glue: dict) -> dict[str, tuple[str, str, tuple[str, ...]]]:
+    """name -> (boolean Coq expression, 'formats' | 'glue' | 'c10', views).  The expressions over Gen/BspFormats_gen.v are those
+    of checks/c11.py (run), the ones over Gen/BspGlue_gen.v come from checks.c11.glue_obligations."""
+    from checks import c11 as C11
+    obs: dict[str, tuple[str, str]] = {}
+    for name, _appl, _r, _w in c11_formats.STREAMS:
+        obs[f'lump_formats_agree:{name}'] = (f'stream_ok_named layouts streams "{name}"', 'formats')
+    for v in fside.get('prop_versions', {}):
+        obs[f'prop_layout_agree:{v}'] = ('match find (fun v => let \'(n, _, _, _) := v in String.eqb n "%s") prop_versions with '
+                                         'Some v => prop_ok v | None => false end' % v, 'formats')
+        obs[f'prop_fields_agree:{v}'] = ('match find (fun v => let \'(n, _, _) := v in String.eqb n "%s") prop_fields with '
+                                         'Some v => fields_ok v | None => false end' % v, 'formats')
+    obs['overlay_block_agrees_for_every_face_count'] = (
+        'overlay_ok overlay_reader overlay_writer_head overlay_writer_tail overlay_face_count overlay_writer_max_faces '
+        'overlay_reader_max_faces overlay_face_fmts', 'formats')
+    obs['detail_kind_dispatch:all'] = ('dispatch_ok detail_classes detail_write_dispatch detail_read_dispatch', 'formats')
+    obs['every_format_string_is_in_the_modelled_language'] = ('forallb (fun l => forallb (fun kv => fmt_known (snd kv)) (snd l)) layouts',
+                                                              'formats')
+    for n, e in C11.glue_obligations(glue).items():
+        obs[n] = (e, 'glue')
+    out: dict[str, tuple[str, str, tuple[str, ...]]] = {}
+    for n, (e, kind) in obs.items():
+        if n.startswith(C11_REJECTION_ONLY):
+            continue
+        vs = views_of_c11_obligation(n)
+        out[f'codec[{"+".join(vs)}]:{n}'] = (e, kind, vs)
+    # C10's own: the step from the generated texture-table configuration to the premise (theorem c10_textures_codec_premise)
+    out['codec[textures]:c10_textures_codec_premise_applies'] = ('texcfg_ok tex_cfg && texcfg_window_is_guard tex_cfg', 'c10', ('textures',))
+    out['codec[textures]:every_name_the_reader_returns_passes_the_writers_guard'] = ('texcfg_window_is_guard tex_cfg', 'c10', ('textures',))
+    return out
+
+
+def codec_stage(ck: Ck) -> dict[str, bool]:
+    """Regenerate C11's view codecs from today's bsp.py and discharge the per-view codec premises."""
+    from checks import c11 as C11
+    ok_f = ck.translate('BspFormats_gen', c11_formats.translate)
+    ok_g = ck.translate('BspGlue_gen', c11_glue.translate)
+    tr = ck.extra.get('translated', {})
+    if not (ok_f and ok_g and ck.build(['Gen/BspFormats_gen.vo', 'Gen/BspGlue_gen.vo', 'SM/LazyLumpsCodec.vo'])):
+        return {}
+    obs = codec_obligations(tr.get('BspFormats_gen', {}), tr.get('BspGlue_gen', {}))
+    res: dict[str, bool] = {}
+    for kind, imports in (('formats', C11.IMPORTS), ('glue', C11.IMPORTS_GLUE + ['SV.SM.LazyLumpsCodec'])):
+        part = {n: e for n, (e, k, _) in obs.items() if k == kind or (kind == 'glue' and k == 'c10')}
+        if part:
+            res.update(ck.instance_obligations(imports, part, name='codec_' + kind))
+    per_view: dict[str, list[str]] = {v: [] for v in VIEWS}
+    for n, (_, _, vs) in obs.items():
+        for v in (VIEWS if vs == ('*',) else vs):
+            per_view.setdefault(v, []).append(n.split(']:', 1)[1])
+    specific = {v: [n for n, (_, _, vs) in obs.items() if v in vs] for v in VIEWS}
+    ck.extra['codec_premise_obligations_per_view'] = {v: len(ns) for v, ns in specific.items()}
+    ck.extra['views_without_a_codec_obligation_of_their_own'] = sorted(v for v, ns in specific.items() if not ns)
+    ck.extra['codec_obligations_false'] = sorted(n for n, ok in res.items() if not ok)
+    return res
+
+
+def memoise_lzma() -> None:
+    """compress_lzma is a pure function of its argument and by far the most expensive step of a save (23 ms per lump):
+    the hundreds of saves of the same few compressed lumps share its results.  The function called is still the
+    implementation's (a fault in it shows in every result); only repeated calls with equal bytes are answered from memory."""
+    import functools
+    import srctools.binformat as F
+    import srctools.bsp as B
+    if getattr(F.compress_lzma, '_c10_memo', False):
+        return
+    orig = F.compress_lzma
+    cached = functools.lru_cache(maxsize=8192)(lambda data: orig(data))
+
+    def compress_lzma(data: bytes) -> bytes:
+        return cached(bytes(data))
+    compress_lzma._c10_memo = True      # type: ignore[attr-defined]
+    compress_lzma.__wrapped__ = orig    # type: ignore[attr-defined]
+    F.compress_lzma = compress_lzma
+    if getattr(B, 'compress_lzma', None) is orig:
+        B.compress_lzma = compress_lzma
+
+
 # ================================================================================================ main
 def run(ck: Ck) -> None:
     ck.rule = ('inputs: tests/test_vec/rot_main.bsp and synthesised consistent BSPs (7 layouts x options: LZMA lumps, '
@@ -864,16 +1001,20 @@ def run(ck: Ck) -> None:
     ck.assumptions.append('codec_ok / wr_len_ok (each writer inverts its reader on the lumps of the file: C11) are hypotheses of '
                           'the theorems; the oracle checks them end to end on the sample inputs only')
     import time
+    memoise_lzma()
     work = ck.scratch / 'bsp'
     work.mkdir()
     tm = ck.extra.setdefault('timing_s', {})
     t0 = time.time()
     ok_t = ck.translate('BspGraph_gen', c10_bspgraph.translate)
+    tm['translate'] = round(time.time() - t0, 1)
     side = ck.extra.get('translated', {}).get('BspGraph_gen')
     built = ok_t and ck.build(['Props/C10.vo', 'Gen/BspGraph_gen.vo'])
+    tm['translate+build'] = round(time.time() - t0, 1)
     inst: dict[str, bool] = {}
     if built:
         ck.theorems('Props/C10.v')
+        tm['translate+build+assumptions'] = round(time.time() - t0, 1)
         n = 'length bsp_graph'
         vpos = {v: i for i, v in enumerate(side['view_at']) if v}
         reviewed = sorted((vpos[a], vpos[b]) for a, b in REVIEWED_ELEMENT_MUTATIONS if a in vpos and b in vpos)
@@ -936,6 +1077,9 @@ def run(ck: Ck) -> None:
             'writers_only_read_or_append_to_the_views_they_look_at': 'forallb (fun u => Nat.leb (snd u) 1) bsp_writer_uses',
         })
     tm['translate+build+obligations'] = round(time.time() - t0, 1)
+    t0 = time.time()
+    codec = codec_stage(ck) if built else {}
+    tm['codec_premises'] = round(time.time() - t0, 1)
     t0 = time.time()
     # ---------------------------------------------------------------------------- inputs
     own = owners(side)
@@ -1090,9 +1234,13 @@ def run(ck: Ck) -> None:
     t0 = time.time()
     for subj in subjects:       # the sample map (large entity lump: fewer trials)
         attempt(subj, None, [[]])
-        if subj.desc.get('derive') and not ck.budget(0, 1):     # quick tier: the views that rebuild the changed table
-            attempt(subj, None, [['textures']])
-            attempt(subj, None, [['overlays', 'texinfo']])
+        if subj.desc.get('derive'):     # the views that rebuild the changed table; thorough: every view alone, a few histories
+            attempt(subj, None, [['texinfo']])
+            if ck.budget(0, 1):
+                for v in VIEWS:
+                    attempt(subj, None, [[v]])
+                for i in range(10):
+                    attempt(subj, None, [rng.sample(VIEWS, rng.choice([2, 3, 6, 12])) for _ in range(rng.choice([1, 2]))])
             continue
         for v in (VIEWS if ck.budget(0, 1) else rng.sample(VIEWS, 4)):
             attempt(subj, None, [[v]])
@@ -1103,23 +1251,29 @@ def run(ck: Ck) -> None:
     ck.sample({'input': default.desc, 'cycles': [['faces', 'ents'], ['bmodels']],
                'result': run_trial(default, [['faces', 'ents'], ['bmodels']], work, own) or 'lossless'})
     # a broken graph obligation that the small search could not turn into a failing history: search harder
+    # findings recorded as known (known_findings.json) explain nothing: only NEW concrete histories may account for a broken tie
+    from harness.common import load_known
+    known_keys = {k['key'] for k in load_known().get('known', []) if k.get('property') == 'C10'}
+
+    def fresh_found() -> dict[str, dict]:
+        return {k: f for k, f in found.items() if k not in known_keys}
     broken = [o['name'] for o in ck.obligations if not o['ok'] and not o.get('explained')]
-    if broken and not found and not ck.thorough:
+    if broken and not fresh_found() and not ck.thorough:
         ck.tie_broken.append('obligations failed and the quick search found no failing history: ' + ', '.join(broken))
         for i in range(1500):
             opts, s = synth_subjects[rng.randrange(len(synth_subjects))]
             attempt(s, opts, [rng.sample(VIEWS, rng.choice([1, 2, 3, 5, 9, 14, 21])) for _ in range(rng.choice([1, 1, 2, 3]))])
-            if found:
+            if fresh_found():
                 break
     if inst.get('shape_ok_bsp_shape') is False and any(f['kind'].split(':')[0] in ('failed-look-changed-lump', 'raw-changed-unparsable',
-                                                                                 'cache-not-empty-after-save') for f in found.values()):
+                                                                                 'cache-not-empty-after-save') for f in fresh_found().values()):
         # outside the shapes the model was validated for (its abstraction of "the reader raises" is not data-exact there):
         # the concrete findings above are the explanation
         ck.explain('correspondence:get-save-model')
     if any(inst.get(nm) is False for nm in ('order_consistent_bsp_graph', 'every_cleared_lump_stored_by_its_writer',
                                             'cleared_lumps_are_never_stored_conditionally')) \
             and any(f['kind'].split(':')[0] in ('view-content-changed', 'raw-changed', 'cache-not-empty-after-save')
-                    for f in found.values()):
+                    for f in fresh_found().values()):
         # the model stores every lump of v_wstore when a writer runs; a writer that skips the store of a cleared lump (or a graph
         # that is not order-consistent) is outside it, the traced runs disagree about the lumps left empty after save, and the
         # concrete histories above show the loss
@@ -1128,7 +1282,7 @@ def run(ck: Ck) -> None:
         ck.violation(key, f'{f["kind"]}: {f["detail"]}', {k: v for k, v in f.items() if k != 'n'})
     ck.extra['violation_keys'] = sorted(found)
     # a failed graph obligation is explained by a concrete failing history of the matching kind
-    kinds = {f['kind'].split(':')[0] for f in found.values()}
+    kinds = {f['kind'].split(':')[0] for f in fresh_found().values()}
     if kinds & {'view-content-changed', 'cache-not-empty-after-save', 'raw-changed', 'save-raises', 'look-raises',
                 'failed-look-changed-lump', 'raw-changed-unparsable'}:
         for nm in ('shape_ok_bsp_shape', 'get_clears_raw_data_only_after_the_reader_has_finished', 'get_caches_every_parsed_value',
@@ -1144,6 +1298,11 @@ def run(ck: Ck) -> None:
                    'restored_mutations_happen_after_everything_that_can_raise',
                    'cleared_lumps_are_never_stored_conditionally'):
             if inst.get(nm) is False:
+                ck.explain('instance:' + nm)
+    # a false codec premise is explained by a concrete look + save history that changes content, raises or is unstable
+    if kinds & {'view-content-changed', 'save-raises', 'look-raises', 'reread-fails', 'second-save-differs', 'raw-changed'}:
+        for nm, ok in codec.items():
+            if not ok:
                 ck.explain('instance:' + nm)
 
 
